@@ -364,7 +364,10 @@ class DeduplicateDecorator(AsyncDecorator):
             task = self.fn.asynq(*args, **kwargs)
 
             def callback(task):
-                self.tasks.pop(cache_key, None)
+                # only forget our own entry: after dirty() a newer task may have been
+                # registered under the same key while this one was still in flight
+                if self.tasks.get(cache_key) is task:
+                    del self.tasks[cache_key]
 
             self.tasks[cache_key] = task
             task.on_computed.subscribe(callback)
